@@ -1882,6 +1882,8 @@ class InterpStmt:
             return True
         t = self.ev(handler_type, fr)
         names = [x.name for x in t] if isinstance(t, tuple) else [t.name]
+        # exception classes of external modules (`except re.error`) are named by their dotted path
+        names = [nme[4:] if nme.startswith('ext:') else nme for nme in names]
         for nme in names:
             if self.exc_isinstance(exc.cls, nme):
                 return True
